@@ -440,6 +440,9 @@ func (r *runner) line(l string) string {
 		if !ok || isSync || (f[0] == "addcany" && !isMQ) {
 			return "bad-op"
 		}
+		if neverEnding > 0 {
+			return "skipped:an-earlier-retry-loop-never-ended"
+		}
 		return r.addAnyway(f[0] == "addcany", x, f[2] == "p")
 	case "size?":
 		if len(f) != 1 {
@@ -699,9 +702,6 @@ func (r *runner) addAnyway(ctrl bool, x int, resolvePop bool) string {
 		sh.closed = true
 	}
 	guard := 3 * time.Second
-	if neverEnding > 0 { // a retry loop that never ends was already reported in this process: do not pay 3 s again
-		guard = 100 * time.Millisecond
-	}
 	deadline := time.Now().Add(guard)
 	for !done() && time.Now().Before(deadline) {
 		time.Sleep(50 * time.Microsecond)
@@ -713,6 +713,8 @@ func (r *runner) addAnyway(ctrl bool, x int, resolvePop bool) string {
 		r.hit(site, "does-not-terminate", fmt.Sprintf("%s is still retrying (3 s guard) after %s", site, map[bool]string{true: "room was made", false: "the queue was closed"}[resolvePop]))
 		r.dead = "leaked-retry-loop"
 		neverEnding++
+		// the goroutine cannot be stopped: keep it out of later quiescence tests; later *Anyway lines are skipped
+		c12sched.Ignore = []string{"AddReqAnyway", "AddAnyway", "AddCtrlAnyway"}
 	}
 	switch {
 	case resolvePop && fin == "ok":
